@@ -20,7 +20,7 @@ ASSUMPTIONS = [
     "complete grid = all integers up to the largest finite window end + total travel (all data are integers, so every attainable service time is on it)",
     "sequence-based comparison uses instances with <= 2 customers so that 2^n enumeration stays exact (n <= 18)",
 ]
-PARTIAL = []
+PARTIAL = ["the end-to-end equalities of the four optima are decided by exhaustive optimisation on every run; Lean proves the cost-preserving correspondences between each formulation and reference route partitions (see theorem list) and the exact-penalty step (C04)"]
 BUDGET_S = {"quick": 200, "thorough": 1800}
 
 
